@@ -82,9 +82,12 @@ class ValidateAttributesOverrides(RelativeHandlerInterface):
                     cls.validate_override(target, attr, base_attr)
                 else:
                     name = attr.name
+                    base_name = base_attr.name
                     cls.resolve_conflict(attr, base_attr)
                     if attr.name != name:
                         cls.ensure_unique_name(target, attr, base_attrs_map)
+                    elif base_attr.name != base_name:
+                        cls.ensure_unique_base_name(base_attr, base_attrs_map)
             elif attr.is_prohibited:
                 cls.remove_attribute(target, attr)
 
@@ -105,6 +108,26 @@ class ValidateAttributesOverrides(RelativeHandlerInterface):
         reserved = {get_slug(x) for x in target.attrs if x is not attr}
         reserved.update(base_attrs_map)
         attr.name = ClassUtils.unique_name(attr.name, reserved)
+
+    @classmethod
+    def ensure_unique_base_name(
+        cls,
+        base_attr: Attr,
+        base_attrs_map: dict[str, list[Attr]],
+    ):
+        """Make sure a renamed parent attr doesn't clash with its siblings.
+
+        Args:
+            base_attr: The parent attr that was renamed
+            base_attrs_map: A mapping of qualified names to lists of parent attrs
+        """
+        reserved = {
+            get_slug(x)
+            for attrs in base_attrs_map.values()
+            for x in attrs
+            if x is not base_attr
+        }
+        base_attr.name = ClassUtils.unique_name(base_attr.name, reserved)
 
     @classmethod
     def overrides(cls, a: Attr, b: Attr) -> bool:
